@@ -485,6 +485,8 @@ def compare(it, op, a, b, node=None):
 
 
 def contains(it, container, x, node=None):
+    if hasattr(container, 'py_contains'):
+        return container.py_contains(it, x, node)
     if isinstance(container, (tuple, list)):
         items = list(container)
     elif isinstance(container, PList):
